@@ -203,6 +203,20 @@ class P(Prop):
                 self.lib_check(name, c, {"w": w, "history": "after earlier results were edited"})
         self.lib_check("half_adder", cg.logic.half_adder(), {"history": "after an earlier result was edited"})
         self.lib_check("full_adder", cg.logic.full_adder(), {"history": "after an earlier result was edited"})
+        # K47 (known): a dotted node that is not a pin, next to a recorded instance of that prefix, survives strip_blackboxes
+        k47 = cg.Circuit("k47")
+        k47.add("a", "input")
+        k47.add("o", "buf", output=True)
+        k47.add_blackbox(cg.BlackBox("ff", ["d"], ["q"]), "u", {"d": "a", "q": "o"})
+        k47.add("u.x", "input")
+        k47.add("p", "buf", fanin="u.x", output=True)
+        if call(cg.lint, k47)[0] == "ok":
+            o, r = call(cg.tx.strip_blackboxes, k47)
+            if o == "ok":
+                pins = {f"{i}.{p}" for i, b in k47.blackboxes.items() for p in b.inputs() | b.outputs()}
+                dotted = [x for x in r.graph.nodes if "." in x]
+                self.lib_check("strip_blackboxes", r, {"arg": c_to_json(k47)},
+                               tag=":dotted-non-pin" if dotted and not set(dotted) & pins else "")
         for i in range(n):
             c = gen.circuit(rng, dead=True, out_inputs=0.3 if i % 2 else 0.08)
             cj = c_to_json(c)
@@ -240,7 +254,28 @@ class P(Prop):
                 p.add_subcircuit(child, "zz_u", conns)
                 return p
 
+            def ru():
+                d = c.copy()
+                d.remove_unloaded(inputs=False)
+                return d
+
+            def fill():
+                """add_blackbox + fill_blackbox, fully connected"""
+                child = gen.circuit(rng, n_in=(1, 3), n_gates=(1, 4), dead=False)
+                if child.inputs() & child.outputs():
+                    return c.copy()
+                p = c.copy()
+                bb = cg.BlackBox("zz_t", sorted(child.inputs()), sorted(child.outputs()))
+                conns = {pin: rng.choice(sorted(p.graph.nodes)) for pin in sorted(child.inputs())}
+                conns.update({pin: p.add(f"zz_f_{pin}", "buf", uid=True, output=True) for pin in sorted(child.outputs())})
+                p.add_blackbox(bb, "zz_b", conns)
+                p.fill_blackbox("zz_b", child)
+                return p
+
             for name, f in [("add_subcircuit", compose),
+                            ("fill_blackbox", fill),
+                            ("remove_unloaded", ru),
+                            ("strip_blackboxes", lambda: cg.tx.strip_blackboxes(seq, rng.choice([None, "clk", ["clk"]]))),
                             ("limit_fanin", lambda: cg.tx.limit_fanin(c, rng.choice([2, 3]))),
                             ("limit_fanout", lambda: cg.tx.limit_fanout(c, rng.choice([2, 3]))),
                             ("miter", lambda: cg.tx.miter(c)),
